@@ -99,3 +99,39 @@ for _n in (0, 1, 2, 3):
         weight=1 if _n < 3 else 8,
         tier="quick" if _n < 3 else "thorough",
     )(_fold(_n))
+
+
+# ------------------------------------------------------------------------------------------------
+# the number formatter: four significant digits OF THE NUMBER ITSELF
+# ------------------------------------------------------------------------------------------------
+@contract(
+    "serializer._number_to_string",
+    ["C10", "C14"],
+    [SER + ":_number_to_string"],
+    "S",
+    bound="a float (any real) or an int",
+    assumes=["A9-fmt: format(x, '.4g') is the four-significant-digit form of x"],
+    covers=["float", "int"],
+)
+def c_number_to_string(h):
+    from pyvc.core import FormattedNumber
+
+    s = S(h)
+    h.I.load_module(SER)
+    kind = ["float", "int"][h.ctx.choose(2, "kind")]
+    x = s.real("n") if kind == "float" else 7
+    out = h.call(h.I.get_func(SER + ":_number_to_string"), [x])
+    h.check("C14.number_to_string.no_exception", out.kind == "return", "raised %s at %s" % (out.exc_name, out.where))
+    if out.kind != "return":
+        return
+    h.cover(kind)
+    r = out.value
+    if kind == "int":
+        h.check("C10.number_to_string.int_printed_in_full", r == "7", "%r" % (r,))
+    else:
+        ok = isinstance(r, FormattedNumber)
+        h.check("C10.number_to_string.float_is_formatted_with_a_spec", ok, "%r" % (r,))
+        if ok:
+            h.check("C10.number_to_string.four_significant_digits", r.spec == ".4g", "format spec %r" % (r.spec,))
+            # the number formatted is the argument itself: nothing is done to it before (rounding to decimals, scaling, abs)
+            h.ensure("C10.number_to_string.formats_the_number_itself", to_real(r.expr) == to_real(x))
